@@ -4,7 +4,7 @@ CONSTANTS
   Hi = 255
   Starts <- U8q
   Ends <- U8q
-  Steps <- U8q
+  Steps <- U8qs
   Wraps = FALSE
   PrintRows = TRUE
 INVARIANTS TypeOK NeedsNoValueOutsideT YieldsTheSequence StopsAtTheEnd DenotationConsistent RejectedOnlyWhenSpecified Emit
